@@ -223,8 +223,8 @@ class ACLRule(SimComponent):
             src_port = frame.udp.src_port
             dst_port = frame.udp.dst_port
 
-        src_port_matches = self.src_port == src_port if self.src_port else True
-        dst_port_matches = self.dst_port == dst_port if self.dst_port else True
+        src_port_matches = self.src_port == src_port if self.src_port is not None else True
+        dst_port_matches = self.dst_port == dst_port if self.dst_port is not None else True
 
         # The frame is permitted if all conditions are met
         if protocol_matches and src_ip_matches and dst_ip_matches and src_port_matches and dst_port_matches:
